@@ -138,3 +138,36 @@ buffer_roundtrip!(c23_q_buffer_u64_to_u32, u64, 4, u32);
 buffer_roundtrip!(c23_q_buffer_u32_to_u16pair, u32, 8, [u16; 2]);
 buffer_roundtrip!(c23_t_buffer_u64_to_u32pair, u64, 4, [u32; 2]);
 buffer_roundtrip!(c23_t_buffer_u8_to_i8, u8, 16, i8);
+
+/// Three pooled buffers of mixed element sizes (byte order and element-count
+/// order of the pool disagree): whatever the pool's internal order or search
+/// strategy, `alloc::<f32>(req)` returns enough capacity, and a reused buffer
+/// is the only layout-compatible one and is removed from the pool.
+#[kani::proof]
+#[kani::unwind(6)]
+fn c23_q_alloc_three_buffers_mixed() {
+    let pool = BufferPool::new().with_min_size(8);
+    let a: Vec<u8> = Vec::with_capacity(8);
+    let b: Vec<u8> = Vec::with_capacity(16);
+    let c: Vec<f32> = Vec::with_capacity(5);
+    let pc = c.as_ptr() as usize;
+    let (ca, cb, cc) = (a.capacity(), b.capacity(), c.capacity());
+    pool.add(a);
+    pool.add(b);
+    pool.add(c);
+    assert!(pool.len() == 3);
+    let req: usize = kani::any();
+    kani::assume(req <= 10);
+    let out: Vec<f32> = pool.alloc(req);
+    kani::cover!(req == 7, "request larger than the only f32 buffer");
+    assert!(out.capacity() >= req, "allocation smaller than requested");
+    let reuse_expected = req * 4 >= 8 && req <= cc;
+    if reuse_expected {
+        assert!(out.as_ptr() as usize == pc && out.capacity() == cc, "compatible pooled buffer not reused");
+        assert!(pool.len() == 2);
+    } else {
+        assert!(out.as_ptr() as usize != pc, "pooled buffer handed out although it does not fit");
+        assert!(pool.len() == 3);
+    }
+    let _ = (ca, cb);
+}
